@@ -60,7 +60,7 @@ MODEL_FILES = ["Base", "Gen", "MReduce", "MRounding", "MParams", "MKeccak", "MNt
 
 
 def regenerate_gen():
-    """Run the source translator (constants, tables, Keccak body) so the theorems are re-checked
+    """Run the source translator (constants, tables, Keccak body, scalar kernels) so the theorems are re-checked
     against what /repo says now. Returns a note for the evidence file."""
     with Lock("coq"):
         rc, out = sh([sys.executable, os.path.join(VERIF, "tools", "gen_from_src.py")])
@@ -336,7 +336,7 @@ def load_known():
 TRUSTED_BASE = [
     "Coq 8.16.1 kernel incl. vm_compute (no native_compute); coqchk in the thorough tier",
     "axioms: none (every property theorem prints 'Closed under the global context')",
-    "hand-written Gallina model DV.M* of /repo/src, tied to the code by differential execution only",
+    "hand-written Gallina model DV.M* of /repo/src, tied to the code by differential execution; tools/gen_from_src.py + tools/gen_kernels.py (translator, regenerated every run): constants, ZETAS, Keccak round constants and two-round body are used by the model directly (Gen.v), the scalar kernels of reduce.rs / rounding*.rs are proved equal to the model's (GenK.v, GenKReduce.v, GenKRounding.v), the constants are proved equal in GenCheck.v (built in every check)",
     "extraction: ExtrOcamlBasic only (Extract Inductive bool/option/list/prod/unit/sumbool; no Extract Constant); OCaml 4.13.1; driver.ml/dispatch.ml/main.ml",
     "Rust harness /verif/harness (path dependency on /repo, feature verif-hooks), python orchestrator",
     "Rust semantics assumed by the model: wrap-around in release = checked value when no overflow panic; arithmetic >>; truncating as-casts",
@@ -357,11 +357,16 @@ def run_property(mod, pid, tier, seed, replay=None):
     proofs_ok = True
     try:
         cov["translator"] = regenerate_gen()
+        if "TRANSLATE-ERROR" in cov["translator"]:
+            assumptions.append("the source translator could not read part of /repo/src on this run (%s): the theorems that "
+                               "mention Gen.v/GenK.v refer to the last text it could read, and only the differential "
+                               "correspondence ties those parts of the model to the code in this run"
+                               % cov["translator"].replace("\n", "; "))
         build_coq([f + ".vo" for f in MODEL_FILES])
     except BuildError as e:
         rep.violation(e.what, {"broken": [e.what], "log": e.log}, False)
     try:
-        build_coq(["Prop_%s.vo" % pid])
+        build_coq(["GenCheck.vo", "Prop_%s.vo" % pid])
         thms, discharged, problems, axioms = audit_props(pid)
         problems += audit_sources()
         cov["obligations"] = max(len(thms), 1)
